@@ -518,6 +518,8 @@ int fp12_test_cyc(const fp12_t a) {
 		fp12_frb(t1, a, 2);
 
 		result = ((fp12_cmp(t0, t1) == RLC_EQ) ? 1 : 0);
+		/* Zero satisfies the equation but is not an element of the group. */
+		result &= !fp12_is_zero(a);
 	}
 	RLC_CATCH_ANY {
 		RLC_THROW(ERR_CAUGHT);
